@@ -224,6 +224,11 @@ def sym_len(lst):
     return mk_int(t)
 
 
+class SymSet(list):
+    """a set whose elements may be symbolic (kept as a list that may contain segment
+    markers); order is never observable: iteration is flagged as unordered"""
+
+
 class Fold:
     """Value of a loop-carried variable after a summarised loop:
     F(0) = init;  F(k+1) = step[acc := F(k), j := k]  (k runs over the segment rounds,
